@@ -81,6 +81,17 @@ static int dg_strlist(Dg& g, char** l) {
   return n;
 }
 
+// Dead stack slots below the frame that calls the library hold one known byte (plan field `fill`, default 0xa5)
+// instead of whatever the harness left there -- leftovers contain pointers, which differ from process to process, so a
+// library that reads an uninitialised local would otherwise make runs irreproducible instead of wrong.  Every call
+// into the library is written L(call).
+__attribute__((noinline, no_sanitize("address"))) static void scrub_op_stack() {
+  char pad[24 * 1024];
+  memset(pad, g_fill_byte ? g_fill_byte : 0xa5, sizeof pad);
+  __asm__ volatile("" : : "r"(pad) : "memory");
+}
+#define L(...) (scrub_op_stack(), (__VA_ARGS__))
+
 // ------------------------------------------------------------------ harness-owned crystal structs
 // Caller-built crystals live in ONE fixed slot per task: every crystal a task passes in has the same address as
 // the previous one, as happens in real programs that reuse a stack variable or get a freed block back from malloc
@@ -208,10 +219,10 @@ static void verify_array(Exec& ex, Crystal_Array* a, ArrayModel& m, const char* 
   {
     int n = -1;
     xrl_error* e = nullptr;
-    char** l = Crystal_GetCrystalsList(arg, &n, &e);
+    char** l = L(Crystal_GetCrystalsList(arg, &n, &e));
     if (!l || e) {
       violation("model-mismatch", "Crystal_GetCrystalsList", "list failed after %s: %s", after, e && e->message ? e->message : "no error");
-      if (e) xrl_error_free(e);
+      if (e) L(xrl_error_free(e));
     } else {
       if (n != (int)m.dict.size()) violation("model-mismatch", "Crystal_GetCrystalsList", "count %d != %zu after %s", n, m.dict.size(), after);
       int k = 0;
@@ -221,8 +232,8 @@ static void verify_array(Exec& ex, Crystal_Array* a, ArrayModel& m, const char* 
         k++;
       }
       if (k == (int)m.dict.size() && l[k] != nullptr) violation("model-mismatch", "Crystal_GetCrystalsList", "list not NULL-terminated at %d", k);
-      for (int j = 0; l[j]; j++) xrlFree(l[j]);
-      xrlFree(l);
+      for (int j = 0; l[j]; j++) L(xrlFree(l[j]));
+      L(xrlFree(l));
     }
   }
   size_t total = m.dict.size(), step = total <= 60 ? 1 : total / 8, idx = 0;
@@ -230,23 +241,23 @@ static void verify_array(Exec& ex, Crystal_Array* a, ArrayModel& m, const char* 
   for (auto& kv : m.dict) {
     if (step > 1 && idx++ % step != phase) continue;
     xrl_error* e = nullptr;
-    Crystal_Struct* c = Crystal_GetCrystal(kv.first.c_str(), arg, &e);
+    Crystal_Struct* c = L(Crystal_GetCrystal(kv.first.c_str(), arg, &e));
     if (!c) {
       violation("model-mismatch", "Crystal_GetCrystal", "'%s' not retrievable after %s: %s", kv.first.c_str(), after, e && e->message ? e->message : "no error");
     } else {
       std::string d = diff_crystal(c, kv.second, true);
       if (!d.empty()) violation("model-mismatch", "Crystal_GetCrystal", "'%s' after %s: %s", kv.first.c_str(), after, d.c_str());
       if (e) violation("model-mismatch", "Crystal_GetCrystal", "'%s' returned together with an error", kv.first.c_str());
-      Crystal_Free(c);
+      L(Crystal_Free(c));
     }
-    if (e) xrl_error_free(e);
+    if (e) L(xrl_error_free(e));
   }
   {
     xrl_error* e = nullptr;
-    Crystal_Struct* c = Crystal_GetCrystal("\x01no-such-crystal\x7f", arg, &e);
+    Crystal_Struct* c = L(Crystal_GetCrystal("\x01no-such-crystal\x7f", arg, &e));
     if (c) { violation("model-mismatch", "Crystal_GetCrystal", "absent name returned a crystal"); Crystal_Free(c); }
     else if (!e) violation("model-mismatch", "Crystal_GetCrystal", "absent name returned NULL without an error");
-    if (e) xrl_error_free(e);
+    if (e) L(xrl_error_free(e));
   }
   SH->cur_op_kind = saved_kind;
 }
@@ -372,11 +383,11 @@ static AddOutcome do_add(Exec& ex, Crystal_Array* arr, ArrayModel* m, const Crys
   int before_n = actual->n_crystal, before_alloc = actual->n_alloc;
   int ret;
   if (!d) {
-    ret = Crystal_AddCrystal(nullptr, arr, ep);
+    ret = L(Crystal_AddCrystal(nullptr, arr, ep));
   } else {
     OwnCrystal oc(*d);
     oc.cs.volume = 777.25;   // the collection must store the volume it recomputes, not whatever the caller's struct says
-    ret = Crystal_AddCrystal(&oc.cs, arr, ep);
+    ret = L(Crystal_AddCrystal(&oc.cs, arr, ep));
     oc.scribble();
   }
   out.ret = ret;
@@ -489,7 +500,7 @@ void Exec::run_op(const Op& op) {
       a.s = S;
       if (op.i[3] > 0 && op.d[11] != 0 && q->shape[0] == 'i' && strlen(q->shape) < 12) {
         // energy relative to an absorption edge of this element (the edge is looked up inside the op)
-        double edge = EdgeEnergy(a.i[0], op.i[3] - 1, nullptr);
+        double edge = L(EdgeEnergy(a.i[0], op.i[3] - 1, nullptr));
         int di = 0;
         for (int j = 0; q->shape[j]; j++) {
           if (q->shape[j] != 'd') continue;
@@ -499,7 +510,7 @@ void Exec::run_op(const Op& op) {
         a.i[3] = 0;
         a.d[11] = 0;
       }
-      QRet r = call_query(*q, a, ep);
+      QRet r = L(call_query(*q, a, ep));
       g.dbl(r.d0); g.dbl(r.d1);
       failed_sentinel = r.d0 == 0.0 && r.d1 == 0.0;
       if (op.s.find('(') != std::string::npos && !failed_sentinel) SH->probes[PR_NESTED_FORMULA]++;
@@ -507,7 +518,7 @@ void Exec::run_op(const Op& op) {
       break;
     }
     case OK_PARSE: {
-      struct compoundData* cd = CompoundParser(S, ep);
+      struct compoundData* cd = L(CompoundParser(S, ep));
       failed_sentinel = !cd;
       if (!cd && t_task->caller_loc && !op_fault_fired()) SH->probes[PR_PARSE_FAIL_UNDER_TLOC]++;
       if (cd) {
@@ -516,7 +527,7 @@ void Exec::run_op(const Op& op) {
         bool comma = t_task->caller_loc ? t_task->caller_loc_kind == TLOC_XX || (t_task->caller_loc_kind == TLOC_DUP && g_locale_cfg == LOC_XX) : g_locale_cfg == LOC_XX;
         if (comma && op.s.find('.') != std::string::npos) SH->probes[PR_FRACTION_PARSED_IN_COMMA_LOCALE]++;
         if (t_task->caller_loc) SH->probes[PR_PARSE_UNDER_TLOC]++;
-        if (op.selfc && !op_fault_fired()) FreeCompoundData(cd);
+        if (op.selfc && !op_fault_fired()) L(FreeCompoundData(cd));
         else { nh.type = HT_COMPOUND; nh.p = cd; }
       }
       break;
@@ -525,28 +536,28 @@ void Exec::run_op(const Op& op) {
       Handle* a = find(op.h[0]);
       Handle* b = find(op.h[1]);
       if (!a || !b || a->type != HT_COMPOUND || b->type != HT_COMPOUND) { executed = false; break; }
-      struct compoundData* cd = add_compound_data(*(struct compoundData*)a->p, op.d[0], *(struct compoundData*)b->p, op.d[1]);
+      struct compoundData* cd = L(add_compound_data(*(struct compoundData*)a->p, op.d[0], *(struct compoundData*)b->p, op.d[1]));
       failed_sentinel = !cd;
       if (cd) { if (!op_fault_fired()) dg_compound(g, cd); nh.type = HT_COMPOUND; nh.p = cd; }
       break;
     }
     case OK_NIST_NAME: case OK_NIST_IDX: {
-      struct compoundDataNIST* c = op.kind == OK_NIST_NAME ? GetCompoundDataNISTByName(S, ep)
-                                                            : GetCompoundDataNISTByIndex(op.i[0], ep);
+      struct compoundDataNIST* c = op.kind == OK_NIST_NAME ? L(GetCompoundDataNISTByName(S, ep))
+                                                            : L(GetCompoundDataNISTByIndex(op.i[0], ep));
       failed_sentinel = !c;
       if (c) {
         if (!op_fault_fired()) dg_nist(g, c);
-        if (op.selfc && !op_fault_fired()) FreeCompoundDataNIST(c); else { nh.type = HT_NIST; nh.p = c; }
+        if (op.selfc && !op_fault_fired()) L(FreeCompoundDataNIST(c)); else { nh.type = HT_NIST; nh.p = c; }
       }
       break;
     }
     case OK_RN_NAME: case OK_RN_IDX: {
-      struct radioNuclideData* c = op.kind == OK_RN_NAME ? GetRadioNuclideDataByName(S, ep)
-                                                          : GetRadioNuclideDataByIndex(op.i[0], ep);
+      struct radioNuclideData* c = op.kind == OK_RN_NAME ? L(GetRadioNuclideDataByName(S, ep))
+                                                          : L(GetRadioNuclideDataByIndex(op.i[0], ep));
       failed_sentinel = !c;
       if (c) {
         if (!op_fault_fired()) dg_rn(g, c);
-        if (op.selfc && !op_fault_fired()) FreeRadioNuclideData(c); else { nh.type = HT_RN; nh.p = c; }
+        if (op.selfc && !op_fault_fired()) L(FreeRadioNuclideData(c)); else { nh.type = HT_RN; nh.p = c; }
       }
       break;
     }
@@ -557,9 +568,9 @@ void Exec::run_op(const Op& op) {
       ArrayModel* m = nullptr;
       if (op.kind == OK_CA_LIST) {
         if (!array_of(op.h[0], &arr, &m)) { executed = false; break; }
-        l = Crystal_GetCrystalsList(arr, op.i[0] ? &n : nullptr, ep);
-      } else if (op.kind == OK_NIST_LIST) l = GetCompoundDataNISTList(op.i[0] ? &n : nullptr, ep);
-      else l = GetRadioNuclideDataList(op.i[0] ? &n : nullptr, ep);
+        l = L(Crystal_GetCrystalsList(arr, op.i[0] ? &n : nullptr, ep));
+      } else if (op.kind == OK_NIST_LIST) l = L(GetCompoundDataNISTList(op.i[0] ? &n : nullptr, ep));
+      else l = L(GetRadioNuclideDataList(op.i[0] ? &n : nullptr, ep));
       failed_sentinel = !l;
       if (l) {
         if (op_fault_fired()) { nh.type = HT_STRLIST; nh.p = l; nh.n = -1; break; }
@@ -571,19 +582,19 @@ void Exec::run_op(const Op& op) {
           for (auto& kv : m->dict) { if (k >= cnt || kv.first != l[k]) { ok = false; break; } k++; }
           if (!ok) violation("model-mismatch", "Crystal_GetCrystalsList", "list of %d names differs from the model's %zu sorted keys", cnt, m->dict.size());
         }
-        if (op.selfc) { for (int j = 0; l[j]; j++) xrlFree(l[j]); xrlFree(l); }
+        if (op.selfc) { for (int j = 0; l[j]; j++) L(xrlFree(l[j])); L(xrlFree(l)); }
         else { nh.type = HT_STRLIST; nh.p = l; nh.n = cnt; }
       }
       break;
     }
     case OK_A2S: {
-      char* s = AtomicNumberToSymbol(op.i[0], ep);
+      char* s = L(AtomicNumberToSymbol(op.i[0], ep));
       failed_sentinel = !s;
-      if (s) { if (!op_fault_fired()) g.str(s); if (op.selfc && !op_fault_fired()) xrlFree(s); else { nh.type = HT_STRING; nh.p = s; } }
+      if (s) { if (!op_fault_fired()) g.str(s); if (op.selfc && !op_fault_fired()) L(xrlFree(s)); else { nh.type = HT_STRING; nh.p = s; } }
       break;
     }
     case OK_S2A: {
-      int z = SymbolToAtomicNumber(S, ep);
+      int z = L(SymbolToAtomicNumber(S, ep));
       g.i32(z);
       failed_sentinel = z == 0;
       break;
@@ -592,34 +603,34 @@ void Exec::run_op(const Op& op) {
       if (op.fn == "c_abs") { xrlComplex z = {op.d[0], op.d[1]}; g.dbl(c_abs(z)); }
       else if (op.fn == "c_mul") { xrlComplex x = {op.d[0], op.d[1]}, y = {op.d[2], op.d[3]}; xrlComplex z = c_mul(x, y); g.dbl(z.re); g.dbl(z.im); }
       else if (op.fn == "xrl_malloc") {
-        unsigned char* pm = (unsigned char*)xrl_malloc((size_t)op.i[0]);
+        unsigned char* pm = (unsigned char*)L(xrl_malloc((size_t)op.i[0]));
         failed_sentinel = !pm;
-        if (pm) { for (int k = 0; k < op.i[0]; k++) pm[k] = (unsigned char)k; g.i32(op.i[0]); xrlFree(pm); }
+        if (pm) { for (int k = 0; k < op.i[0]; k++) pm[k] = (unsigned char)k; g.i32(op.i[0]); L(xrlFree(pm)); }
       }
-      else if (op.fn == "xrl_strdup") { char* c = xrl_strdup(S0); failed_sentinel = !c; if (c) { g.str(c); xrlFree(c); } }
-      else if (op.fn == "xrl_strndup") { char* c = xrl_strndup(S0, (size_t)op.i[0]); failed_sentinel = !c; if (c) { g.str(c); xrlFree(c); } }
+      else if (op.fn == "xrl_strdup") { char* c = L(xrl_strdup(S0)); failed_sentinel = !c; if (c) { g.str(c); L(xrlFree(c)); } }
+      else if (op.fn == "xrl_strndup") { char* c = L(xrl_strndup(S0, (size_t)op.i[0])); failed_sentinel = !c; if (c) { g.str(c); L(xrlFree(c)); } }
       else if (op.fn == "release_nulls") {
         // every release / inspection function that documents (or checks for) a NULL argument
         xrl_error* none = nullptr;
-        xrl_error_free(nullptr);
-        xrl_clear_error(nullptr);
-        xrl_clear_error(&none);
-        Crystal_Free(nullptr);
-        Crystal_ArrayFree(nullptr);
-        xrlFree(nullptr);
-        g.i32(xrl_error_copy(nullptr) == nullptr);
-        g.i32(xrl_error_matches(nullptr, XRL_ERROR_MEMORY));
+        L(xrl_error_free(nullptr));
+        L(xrl_clear_error(nullptr));
+        L(xrl_clear_error(&none));
+        L(Crystal_Free(nullptr));
+        L(Crystal_ArrayFree(nullptr));
+        L(xrlFree(nullptr));
+        g.i32(L(xrl_error_copy(nullptr)) == nullptr);
+        g.i32(L(xrl_error_matches(nullptr, XRL_ERROR_MEMORY)));
       }
       else if (op.fn == "xrl_error_new") {
-        xrl_error* c = xrl_error_new((xrl_error_code)(op.i[0] % 6), "%s: %d of %g", S0, op.i[0], op.d[0]);
+        xrl_error* c = L(xrl_error_new((xrl_error_code)(op.i[0] % 6), "%s: %d of %g", S0, op.i[0], op.d[0]));
         failed_sentinel = !c;
-        if (c) { if (!op_fault_fired()) { g.i32(c->code); g.str(c->message); } xrl_error_free(c); }
+        if (c) { if (!op_fault_fired()) { g.i32(c->code); g.str(c->message); } L(xrl_error_free(c)); }
       }
       else executed = false;
       break;
     }
     case OK_ERR_NEW: {
-      xrl_error* c = xrl_error_new_literal((xrl_error_code)op.i[0], S0);
+      xrl_error* c = L(xrl_error_new_literal((xrl_error_code)op.i[0], S0));
       failed_sentinel = !c;
       if (c) {
         if (!op_fault_fired()) { g.i32(c->code); g.str(c->message); }
@@ -630,7 +641,7 @@ void Exec::run_op(const Op& op) {
     case OK_ERR_COPY: {
       Handle* h = find(op.h[0]);
       if (!h || h->type != HT_ERROR || h->shared) { executed = false; break; }
-      xrl_error* c = xrl_error_copy((xrl_error*)h->p);
+      xrl_error* c = L(xrl_error_copy((xrl_error*)h->p));
       failed_sentinel = !c;
       if (c) {
         if (!op_fault_fired()) { g.i32(c->code); g.str(c->message); }
@@ -641,7 +652,7 @@ void Exec::run_op(const Op& op) {
     case OK_ERR_MATCH: {
       Handle* h = find(op.h[0]);
       if (!h || h->type != HT_ERROR) { executed = false; break; }
-      g.i32(xrl_error_matches((xrl_error*)h->p, (xrl_error_code)op.i[0]));
+      g.i32(L(xrl_error_matches((xrl_error*)h->p, (xrl_error_code)op.i[0])));
       break;
     }
     case OK_ERR_PROP: {
@@ -649,10 +660,10 @@ void Exec::run_op(const Op& op) {
       if (!h || h->type != HT_ERROR || h->shared) { executed = false; break; }
       xrl_error* src = (xrl_error*)h->p;
       if (op.i[0]) {
-        xrl_propagate_error(nullptr, src);
+        L(xrl_propagate_error(nullptr, src));
       } else {
         xrl_error* dest = nullptr;
-        xrl_propagate_error(&dest, src);
+        L(xrl_propagate_error(&dest, src));
         if (dest != src && deep) violation("model-mismatch", "xrl_propagate_error", "destination does not hold the source error");
         if (dest) { nh.type = HT_ERROR; nh.p = dest; g.i32(dest->code); g.str(dest->message); }
         SH->probes[PR_ERR_PROPAGATED]++;
@@ -664,13 +675,13 @@ void Exec::run_op(const Op& op) {
       Handle* h = find(op.h[0]);
       if (!h || h->type != HT_ERROR || h->shared) { executed = false; break; }
       xrl_error* slot = (xrl_error*)h->p;
-      xrl_clear_error(&slot);
+      L(xrl_clear_error(&slot));
       g.i32(slot == nullptr);
       handles.erase(op.h[0]);
       break;
     }
     case OK_CA_INIT: {
-      Crystal_Array* a = Crystal_ArrayInit(op.i[0], ep);
+      Crystal_Array* a = L(Crystal_ArrayInit(op.i[0], ep));
       failed_sentinel = !a;
       if (deep && !op_fault_fired()) {
         if (op.i[0] < 0 && a) violation("model-mismatch", "Crystal_ArrayInit", "negative capacity %d accepted", op.i[0]);
@@ -712,7 +723,7 @@ void Exec::run_op(const Op& op) {
         xrl_error* fe = nullptr;
         AddOutcome o = do_add(*this, arr, m, &d, op.slot ? &fe : nullptr, deep);
         okc += o.ret;
-        if (fe) { g.i32(fe->code); xrl_error_free(fe); }
+        if (fe) { g.i32(fe->code); L(xrl_error_free(fe)); }
         if (op_fault_fired()) break;
         if (deep && k % 32 == 31) verify_array(*this, arr ? arr : &Crystal_arr, *m, "Crystal_AddCrystal", false);
       }
@@ -753,7 +764,7 @@ void Exec::run_op(const Op& op) {
       else { cls = EITHER; why = "outside the strict dialect / benign fault"; }
       int before_n = actual->n_crystal;
       ExactStr fname_x(nm, strlen(nm), op.fs.name_null != 0, 2);
-      int ret = Crystal_ReadFile(fname_x.p, arr, ep);
+      int ret = L(Crystal_ReadFile(fname_x.p, arr, ep));
       g.i32(ret);
       failed_sentinel = ret == 0;
       bool fired = op_fault_fired();
@@ -781,7 +792,7 @@ void Exec::run_op(const Op& op) {
     case OK_CA_GET: {
       Crystal_Array* arr; ArrayModel* m;
       if (!array_of(op.h[0], &arr, &m)) { executed = false; break; }
-      Crystal_Struct* c = Crystal_GetCrystal(S, arr, ep);
+      Crystal_Struct* c = L(Crystal_GetCrystal(S, arr, ep));
       failed_sentinel = !c;
       bool fired = op_fault_fired();
       if (c && fired) { nh.type = HT_CRYSTAL; nh.p = c; break; }
@@ -796,7 +807,7 @@ void Exec::run_op(const Op& op) {
       }
       if (c) {
         dg_crystal(g, c);
-        if (op.selfc) Crystal_Free(c);
+        if (op.selfc) L(Crystal_Free(c));
         else {
           nh.type = HT_CRYSTAL; nh.p = c;
           if (m && m->dict.count(op.s)) { nh.cd = m->dict[op.s]; nh.cd_known = true; }
@@ -820,7 +831,7 @@ void Exec::run_op(const Op& op) {
         src = &oc->cs; known = true;
       }
       double src_volume = src ? src->volume : 0.0;
-      Crystal_Struct* c = Crystal_MakeCopy(src, ep);
+      Crystal_Struct* c = L(Crystal_MakeCopy(src, ep));
       failed_sentinel = !c;
       if (oc) { oc->scribble(); delete oc; }
       if (c) {
@@ -860,7 +871,7 @@ void Exec::run_op(const Op& op) {
         if (h->shared) SH->probes[PR_SHARED_CRYSTAL_2TASKS]++;
       } else if (!op.s.empty()) {
         // self-contained form: fetch a shipped crystal by name, use it, release it
-        fetched = Crystal_GetCrystal(S0, nullptr, nullptr);
+        fetched = L(Crystal_GetCrystal(S0, nullptr, nullptr));
         if (!fetched) { executed = false; break; }
         cp = fetched;
         if (op.id % 2) {
@@ -879,20 +890,20 @@ void Exec::run_op(const Op& op) {
       int hh = op.i[0], kk = op.i[1], ll = op.i[2];
       if (op.fn == "Bragg_angle") { double v = Bragg_angle(cp, E, hh, kk, ll, ep); g.dbl(v); failed_sentinel = v == 0; }
       else if (op.fn == "Q_scattering_amplitude") { double v = Q_scattering_amplitude(cp, E, hh, kk, ll, op.d[2], ep); g.dbl(v); failed_sentinel = v == 0; }
-      else if (op.fn == "Crystal_F_H_StructureFactor") { xrlComplex z = Crystal_F_H_StructureFactor(cp, E, hh, kk, ll, op.d[1], op.d[2], ep); g.dbl(z.re); g.dbl(z.im); failed_sentinel = z.re == 0 && z.im == 0; }
-      else if (op.fn == "Crystal_F_H_StructureFactor_Partial") { xrlComplex z = Crystal_F_H_StructureFactor_Partial(cp, E, hh, kk, ll, op.d[1], op.d[2], (int)op.d[3], (int)op.d[4], (int)op.d[5], ep); g.dbl(z.re); g.dbl(z.im); failed_sentinel = z.re == 0 && z.im == 0; }
-      else if (op.fn == "Crystal_F_H_StructureFactor2") { xrlComplex z = {0, 0}; Crystal_F_H_StructureFactor2(cp, E, hh, kk, ll, op.d[1], op.d[2], &z, ep); g.dbl(z.re); g.dbl(z.im); failed_sentinel = z.re == 0 && z.im == 0; }
-      else if (op.fn == "Crystal_F_H_StructureFactor_Partial2") { xrlComplex z = {0, 0}; Crystal_F_H_StructureFactor_Partial2(cp, E, hh, kk, ll, op.d[1], op.d[2], (int)op.d[3], (int)op.d[4], (int)op.d[5], &z, ep); g.dbl(z.re); g.dbl(z.im); failed_sentinel = z.re == 0 && z.im == 0; }
-      else if (op.fn == "Crystal_UnitCellVolume") { double v = Crystal_UnitCellVolume(cp, ep); g.dbl(v); failed_sentinel = v == 0; }
-      else if (op.fn == "Crystal_dSpacing") { double v = Crystal_dSpacing(cp, hh, kk, ll, ep); g.dbl(v); failed_sentinel = v == 0; }
+      else if (op.fn == "Crystal_F_H_StructureFactor") { xrlComplex z = L(Crystal_F_H_StructureFactor(cp, E, hh, kk, ll, op.d[1], op.d[2], ep)); g.dbl(z.re); g.dbl(z.im); failed_sentinel = z.re == 0 && z.im == 0; }
+      else if (op.fn == "Crystal_F_H_StructureFactor_Partial") { xrlComplex z = L(Crystal_F_H_StructureFactor_Partial(cp, E, hh, kk, ll, op.d[1], op.d[2], (int)op.d[3], (int)op.d[4], (int)op.d[5], ep)); g.dbl(z.re); g.dbl(z.im); failed_sentinel = z.re == 0 && z.im == 0; }
+      else if (op.fn == "Crystal_F_H_StructureFactor2") { xrlComplex z = {0, 0}; L(Crystal_F_H_StructureFactor2(cp, E, hh, kk, ll, op.d[1], op.d[2], &z, ep)); g.dbl(z.re); g.dbl(z.im); failed_sentinel = z.re == 0 && z.im == 0; }
+      else if (op.fn == "Crystal_F_H_StructureFactor_Partial2") { xrlComplex z = {0, 0}; L(Crystal_F_H_StructureFactor_Partial2(cp, E, hh, kk, ll, op.d[1], op.d[2], (int)op.d[3], (int)op.d[4], (int)op.d[5], &z, ep)); g.dbl(z.re); g.dbl(z.im); failed_sentinel = z.re == 0 && z.im == 0; }
+      else if (op.fn == "Crystal_UnitCellVolume") { double v = L(Crystal_UnitCellVolume(cp, ep)); g.dbl(v); failed_sentinel = v == 0; }
+      else if (op.fn == "Crystal_dSpacing") { double v = L(Crystal_dSpacing(cp, hh, kk, ll, ep)); g.dbl(v); failed_sentinel = v == 0; }
       else executed = false;
       delete oc;
-      if (fetched) Crystal_Free(fetched);
+      if (fetched) L(Crystal_Free(fetched));
       break;
     }
     case OK_ATOMFAC: {
       double f0 = -1, fp = -1, fpp = -1;
-      int r = Atomic_Factors(op.i[0], op.d[0], op.d[1], op.d[2], (op.i[1] & 1) ? &f0 : nullptr, (op.i[1] & 2) ? &fp : nullptr, (op.i[1] & 4) ? &fpp : nullptr, ep);
+      int r = L(Atomic_Factors(op.i[0], op.d[0], op.d[1], op.d[2], (op.i[1] & 1) ? &f0 : nullptr, (op.i[1] & 2) ? &fp : nullptr, (op.i[1] & 4) ? &fpp : nullptr, ep));
       g.i32(r); g.dbl(f0); g.dbl(fp); g.dbl(fpp);
       failed_sentinel = r == 0;
       break;
@@ -902,21 +913,21 @@ void Exec::run_op(const Op& op) {
       if (it == handles.end() || it->second.shared) { executed = false; break; }
       Handle& h = it->second;
       switch (h.type) {
-        case HT_COMPOUND: FreeCompoundData((struct compoundData*)h.p); break;
-        case HT_NIST: FreeCompoundDataNIST((struct compoundDataNIST*)h.p); break;
-        case HT_RN: FreeRadioNuclideData((struct radioNuclideData*)h.p); break;
-        case HT_STRLIST: { char** l = (char**)h.p; for (int j = 0; l[j]; j++) xrlFree(l[j]); xrlFree(l); break; }
-        case HT_STRING: xrlFree(h.p); break;
-        case HT_ERROR: xrl_error_free((xrl_error*)h.p); break;
-        case HT_CRYSTAL: Crystal_Free((Crystal_Struct*)h.p); break;
-        case HT_ARRAY: Crystal_ArrayFree((Crystal_Array*)h.p); delete h.am; break;
+        case HT_COMPOUND: L(FreeCompoundData((struct compoundData*)h.p)); break;
+        case HT_NIST: L(FreeCompoundDataNIST((struct compoundDataNIST*)h.p)); break;
+        case HT_RN: L(FreeRadioNuclideData((struct radioNuclideData*)h.p)); break;
+        case HT_STRLIST: { char** l = (char**)h.p; for (int j = 0; l[j]; j++) L(xrlFree(l[j])); L(xrlFree(l)); break; }
+        case HT_STRING: L(xrlFree(h.p)); break;
+        case HT_ERROR: L(xrl_error_free((xrl_error*)h.p)); break;
+        case HT_CRYSTAL: L(Crystal_Free((Crystal_Struct*)h.p)); break;
+        case HT_ARRAY: L(Crystal_ArrayFree((Crystal_Array*)h.p)); delete h.am; break;
         default: break;
       }
       g.i32(h.type);
       handles.erase(it);
       break;
     }
-    case OK_INIT: XRayInit(); break;
+    case OK_INIT: L(XRayInit()); break;
     case OK_DEPRECATED: {
       _Pragma("clang diagnostic push") _Pragma("clang diagnostic ignored \"-Wdeprecated-declarations\"")
       if (op.fn == "SetHardExit") SetHardExit(op.i[0]);
@@ -945,7 +956,7 @@ void Exec::run_op(const Op& op) {
     if (nh.type == HT_NONE && op.keep && !fired) {
       nh.type = HT_ERROR; nh.p = e;
     } else {
-      xrl_error_free(e);
+      L(xrl_error_free(e));
     }
     e = nullptr;
   }
